@@ -333,3 +333,5 @@ func RunShard(c *Ctx, p *Prop, only, after string) *Result {
 	r.LayerEx = layerEx
 	return r
 }
+
+func newRand(seed int64) *rand.Rand { return rand.New(rand.NewSource(seed)) }
